@@ -304,3 +304,41 @@ Proof.
     intros _. exists (skipn (S i) (trim_space file)). split; [exact G2 | reflexivity].
   - intros H. injection H as <- <-. split; [exact E | intros C; contradiction].
 Qed.
+
+(* ---- "exactly on": which files read as a given word ---- *)
+Lemma index_byte_app_nospace w rest : index_byte w space = None ->
+  index_byte (w ++ space :: rest) space = Some (length w).
+Proof.
+  induction w as [|x w IH]; intros H; cbn [app index_byte length].
+  - rewrite N.eqb_refl. reflexivity.
+  - cbn [index_byte] in H. destruct (N.eqb x space); [discriminate|].
+    destruct (index_byte w space); [discriminate|]. rewrite IH by reflexivity. reflexivity.
+Qed.
+
+(* the file reads as word w (without a space in it) exactly when, after
+   TrimSpace, it is w or w followed by one ASCII space and anything *)
+Theorem parse_mode_exact file w : index_byte w space = None ->
+  (fst (parse_mode (Some file)) = w <->
+   trim_space file = w \/ exists rest, trim_space file = (w ++ space :: rest)%list).
+Proof.
+  intros Hw. split.
+  - intros H. destruct (parse_mode (Some file)) as [m d] eqn:P. cbn [fst] in H. subst m.
+    unfold parse_mode in P. destruct (index_byte (trim_space file) space) as [i|] eqn:E.
+    + injection P as P1 _. right. exists (skipn (S i) (trim_space file)).
+      assert (G : forall s j, index_byte s space = Some j -> s = (firstn j s ++ space :: skipn (S j) s)%list).
+      { induction s as [|x s IH]; intros j H; [discriminate|].
+        cbn [index_byte] in H. destruct (N.eqb_spec x space) as [->|Hne].
+        - injection H as <-. reflexivity.
+        - destruct (index_byte s space) as [k|] eqn:Ek; [|discriminate]. injection H as <-.
+          cbn [firstn skipn app]. f_equal. apply IH. reflexivity. }
+      rewrite <- P1. apply G. exact E.
+    + injection P as P1 _. left. exact P1.
+  - intros [H|[rest H]]; unfold parse_mode; rewrite H.
+    + rewrite Hw. reflexivity.
+    + rewrite index_byte_app_nospace by exact Hw. cbn [fst].
+      rewrite firstn_app, Nat.sub_diag, firstn_all. cbn [firstn]. apply app_nil_r.
+Qed.
+
+Lemma mode_words_no_space :
+  index_byte m_on space = None /\ index_byte m_off space = None /\ index_byte m_local space = None.
+Proof. repeat split; reflexivity. Qed.
